@@ -268,6 +268,11 @@ def transform_programs(quick):
     progs += [[b] for b in blocks if b[0] != "sub"]
     if not quick:
         progs += [["ROT", b] for b in blocks if b[0] in ("for", "ctrl", "adj")]
+    # subroutines through the transform: one call, the same body twice, and two DIFFERENT bodies with the same name and signature
+    # (a transformed body cached per subroutine must not be served to another subroutine)
+    progs += [[["sub", [a]]] for a in atoms]
+    progs += [[["sub", [a]], ["sub", [b]]] for a in atoms for b in atoms]
+    progs += [[["sub", [a]], ["sub", [b]], ["sub", [a]]] for a in atoms for b in atoms if a != b]
     return progs
 
 
